@@ -35,7 +35,7 @@ KEY_STRUCT = "adf-alloc-structure-damaged"
 KEY_READBACK = "adf-alloc-data-not-read-back"
 KEY_FREED = "adf-alloc-reachable-structure-was-freed"
 KEY_NOTLIVE = "adf-free-of-a-range-that-is-not-an-allocation"
-KEY_FREELIST = "adf-free-list-malformed-on-disk"
+OPTIONAL = ("shrunk-chunk", "short-chunk-on-large-list")     # witnesses of a caller defect: reported when present, not demanded
 
 _Base = vlib.Check
 
@@ -78,7 +78,7 @@ def walk(b):
     """-> dict(eof, regions=[(start, bytes, kind)], free=[(start, bytes, list)], problems=[...]) decoded from the bytes"""
     prob, regs, free = [], [], []
     if len(b) < HDR:
-        return {"eof": -1, "regions": [], "free": [], "problems": ["file shorter than its fixed part"], "gaps": []}
+        return {"eof": -1, "regions": [], "free": [], "problems": ["file shorter than its fixed part"], "free_problems": [], "gaps": []}
     eof = _ptr(b, 146)
     seen = set()
 
@@ -123,23 +123,28 @@ def walk(b):
                     if n is not None and e != s + n - 4:
                         prob.append("data-chunk-table at %d entry %d: end %s, the chunk's own end tag is at %d" % (dc, i, e, s + n - 4))
     node(266, 0)
+    # the three free lists.  Their FORMAT (tags, fill, last pointer) changes no answer -- nothing reads a free chunk back --
+    # so a malformed list is a divergence from the model, not a verdict; the BYTES a list claims do matter (below)
+    fprob = []
     if b[186:190] != b"fCbt" or b[262:266] != b"Fcte":
-        prob.append("free-chunk table tags")
+        fprob.append("free-chunk table tags")
     for i, name in enumerate(("small", "medium", "large")):
         p, last, prev, steps = _ptr(b, 190 + 24 * i), _ptr(b, 202 + 24 * i), None, 0
         while p is not None and steps < 100000:
             steps += 1
             if p + 28 > len(b) or b[p:p + 4] != b"FreE":
-                prob.append("free chunk at %d (%s list): start tag" % (p, name)); break
+                fprob.append("free chunk at %d (%s list): start tag" % (p, name)); break
             e, nx = _ptr(b, p + 4), _ptr(b, p + 16)
-            if e is None or e < p + 28 or e + 4 > len(b) or b[e:e + 4] != b"EndC":
-                prob.append("free chunk at %d (%s list): end pointer / end tag" % (p, name)); break
-            if b[p + 28:e].strip(b"x"):
-                prob.append("free chunk at %d (%s list): not 'x' filled" % (p, name))
+            if e is None or e < p + 28 or e - p > (1 << 40):
+                fprob.append("free chunk at %d (%s list): end pointer" % (p, name)); break
+            if b[e:e + 4] != b"EndC":
+                fprob.append("free chunk at %d (%s list): end tag" % (p, name))
+            elif b[p + 28:e].strip(b"x"):
+                fprob.append("free chunk at %d (%s list): not 'x' filled" % (p, name))
             free.append((p, e + 4 - p, name))
             prev, p = p, nx
         if last != prev:
-            prob.append("%s list: last pointer %s, last chunk %s" % (name, last, prev))
+            fprob.append("%s list: last pointer %s, last chunk %s" % (name, last, prev))
     # pairwise disjointness and the end of file; what lies between the structures
     allr = sorted([(s, n, k) for s, n, k in regs] + [(s, n, "free-" + k) for s, n, k in free])
     hi, hik = HDR, "fixed part (file header, free-chunk table, root node)"
@@ -155,7 +160,7 @@ def walk(b):
         prob.append("OVERLAP %s ends at %d, beyond end_of_file %s" % (hik, hi - 1, eof))
     elif hi < eof + 1:
         gaps.append((hi, eof + 1 - hi))
-    return {"eof": eof, "regions": regs, "free": free, "problems": prob, "gaps": gaps}
+    return {"eof": eof, "regions": regs, "free": free, "problems": prob, "free_problems": fprob, "gaps": gaps}
 
 
 def compare_walk_model(w, snap, b):
@@ -410,14 +415,27 @@ def corpus():
     # the witness of C02_alloc_medium_class_bound_refuted, on the library
     c.append(("medium-holds-4098", ["file 1 F1.cgns BE w", "create 1 0 1 41", "create 1 0 2 42", "dims 1 1 C1 2700", "wall 1 1 " + H(2700, "61"),
               "dims 1 2 C1 4078", "wall 1 2 " + H(4078, "62"), "snap 1 0", "delete 1 0 2", "snap 1 1", "view 1", "reopen 1 m", "view 1",
-              "create 1 0 3 43", "dims 1 1 B1 5", "wall 1 1 " + H(5, "63"), "rall 1 1", "snap 1 2", "closef 1", "snap 1 3"]))
+              "create 1 0 3 43", "dims 1 1 B1 5", "wall 1 1 " + H(5, "63"), "rall 1 1", "snap 1 2", "closef 1", "snap 1 3"],
+              [" 8193 - - 4096:8190 4096 - - ok"]))
+    # the witness of C02_alloc_conservation_needs_exact_frees_refuted: a 2279-byte data chunk rewritten in place for 2140 bytes
+    # of data (same type and rank: ADF keeps the chunk, ADF_Write_All_Data moves its end tag inwards), then freed by its tags
+    c.append(("shrunk-chunk", ["file 1 F1.cgns BE w", "create 1 0 1 41", "dims 1 1 C1 2259", "wall 1 1 " + H(2259, "61"), "dims 1 1 C1 2140",
+              "wall 1 1 " + H(2140, "62"), "rall 1 1", "snap 1 0", "dims 1 1 B1 5", "wall 1 1 " + H(5, "63"), "snap 1 1", "reopen 1 m", "view 1",
+              "rall 1 1", "closef 1", "snap 1 2"], ["NOTE short-free 1130:2160 allocated=2279", " X 3290:119"]))
+    # the witness of C02_alloc_large_class_bound_refuted: a 5000-byte chunk at 3000 shrunk to 2020 bytes, freed: large list
+    c.append(("short-chunk-on-large-list", ["file 1 F1.cgns BE w", "create 1 0 1 41", "create 1 0 2 42", "dims 1 1 C1 1604", "wall 1 1 " + H(1604, "61"),
+              "dims 1 2 C1 4980", "wall 1 2 " + H(4980, "62"), "dims 1 2 C1 2000", "wall 1 2 " + H(2000, "63"), "rall 1 2", "dims 1 2 B1 3",
+              "wall 1 2 " + H(3, "64"), "snap 1 0", "rall 1 1", "rall 1 2", "closef 1", "snap 1 1"], [" - - - - 3000:5016 3000 ok"]))
+    # the witness of C02_alloc_freed_space_is_not_reused: 3000 bytes freed, 3000 bytes asked for again: they go to the end of file
+    c.append(("no-reuse", ["file 1 F1.cgns BE w", "create 1 0 1 41", "dims 1 1 C1 2980", "wall 1 1 " + H(2980, "61"), "dims 1 1 B1 2980",
+              "wall 1 1 " + H(2980, "62"), "rall 1 1", "snap 1 0", "closef 1", "snap 1 1"], ["A m 0 3000 1 0 -1", "A m 0 3000 2 0 -1", " 11191 - - 7096:8188,4096:7092,1130:4092 1130 - - ok"]))
     # rest-of-block chunks of g bytes: 246 -> 'z', 247 -> small, 1024 -> small, 1025 -> medium (A ends at 4095 - g, then
     # an allocation of g + 1 bytes has to move to the next block)
     for g in (245, 246, 247, 1024, 1025):
         k = 2700 - g
         c.append(("rest-of-block-%d" % g, ["file 1 F1.cgns BE w", "create 1 0 1 41", "create 1 0 2 42", "dims 1 1 C1 %d" % k, "wall 1 1 " + H(k, "61"),
                   "dims 1 2 C1 %d" % (g + 1 - 20), "wall 1 2 " + H(g + 1 - 20, "62"), "snap 1 0", "rall 1 1", "rall 1 2", "reopen 1 m", "view 1",
-                  "dims 1 2 B1 7", "wall 1 2 " + H(7, "64"), "delete 1 0 1", "snap 1 1", "rall 1 2", "closef 1", "snap 1 2"]))
+                  "dims 1 2 B1 7", "wall 1 2 " + H(7, "64"), "delete 1 0 1", "snap 1 1", "rall 1 2", "closef 1", "snap 1 2"], []))
     # a parent whose sub-node table grows 8 -> 12 -> 18 -> 27 -> 40 with deletions in between (tables of 372 / 548 / 812 /
     # 1208 / 1780 bytes: small, small, small, medium, medium), then the whole subtree deleted
     t = ["file 1 F1.cgns BE w", "create 1 0 1 50"]
@@ -427,7 +445,7 @@ def corpus():
             t += ["delete 1 1 %d" % (i - 3), "snap 1 %d" % i]
     t += ["reopen 1 m", "view 1"] + ["create 1 1 %d %s" % (i, ("k%d" % i).encode().hex()) for i in range(30, 45)]
     t += ["snap 1 50", "delete 1 0 1", "snap 1 51", "create 1 0 60 51", "closef 1", "snap 1 52"]
-    c.append(("table-growth", t))
+    c.append(("table-growth", t, []))
     return c
 
 
@@ -444,7 +462,7 @@ def run_hist(exe, hook, hist, work, tag, engine_args=(), timeout=240):
     out, outcome, stack = vlib.run_impl(exe, "\n".join(s) + "\n", timeout=timeout, want_stack=True)
     api, tr = split_out(out)
     r = dict(script=s, out=out, outcome=outcome, stack=stack, api=api, trace=tr, oracle=[], diffs=[], viols=[], leaks=0, summary={}, nsnaps=0,
-             walked_regions=0, notes=[])
+             walked_regions=0, notes=[], snaplines=[])
     model = vlib.run_model("c02d", "\n".join(tr) + "\n", args=list(engine_args), timeout=600) if (hook and tr) else []
     # engine lines pair with trace lines
     ti, pend, snapline = -1, [], {}
@@ -457,17 +475,18 @@ def run_hist(exe, hook, hist, work, tag, engine_args=(), timeout=240):
             r["summary"] = {k: int(v) for k, v in (x.split("=") for x in m.split()[1:])}; continue
         ti += 1
         where = tr[ti] if ti < len(tr) else "?"
-        for p in pend:
-            r["viols"].append((p, where))
+        if not r["diffs"]:                  # once model and library disagree the monitor's state is not the library's any more
+            for p in pend:
+                r["viols"].append((p, where))
         pend = []
         if m.startswith("SNAP "):
+            r["snaplines"].append(m)
             snapline[(where.split(" ")[2], where.split(" ")[3])] = m
-        elif m.startswith("DIFF file-structure"):
-            r["oracle"].append((KEY_FREELIST, m[:300] + " @ " + where[:80]))
         elif not m.startswith("ok"):
             r["diffs"].append(m[:300] + " @ " + where[:120])
-    for p in pend:
-        r["viols"].append((p, "end"))
+    if not r["diffs"]:
+        for p in pend:
+            r["viols"].append((p, "end"))
     if hook and tr and outcome == "ok" and ti + 1 != len(tr):
         r["diffs"].append("engine answered %d of %d trace lines" % (ti + 1, len(tr)))
     # the oracle 1: answers
@@ -491,6 +510,8 @@ def run_hist(exe, hook, hist, work, tag, engine_args=(), timeout=240):
         r["nsnaps"] += 1; r["walked_regions"] += len(w["regions"]) + len(w["free"])
         for q in w["problems"]:
             r["oracle"].append((KEY_OVERLAP if q.startswith("OVERLAP") else KEY_STRUCT, "snapshot %s: %s" % (t[3], q)))
+        for q in w["free_problems"]:
+            r["diffs"].append("snapshot %s: %s" % (t[3], q))
         sm = snapline.get((t[2], t[3]))
         if sm:
             orc, div, leaked = compare_walk_model(w, sm, b)
@@ -531,6 +552,55 @@ def failing_keys(r):
     return {k for k, _ in r["oracle"]} | {viol_key(v) for v, _ in r["viols"] if viol_key(v) == KEY_NOTLIVE}
 
 
+# ----------------------------------------------------------------------------- the disabled search, through a variant build
+def build_search_variant(work):
+    """ADF_internals.c with the two "#if 0" of ADFI_file_malloc removed, compiled INTO the harness (its definitions win over
+    the archive member).  Returns the executable or None (the text is not there any more / does not compile)."""
+    try:
+        src = open(os.path.join(vlib.REPO, "src", "adf", "ADF_internals.c"), errors="replace").read()
+        a = src.index("void\tADFI_file_malloc("); b = src.index("} /* end of ADFI_file_malloc */", a)
+    except (OSError, ValueError):
+        return None
+    out, depth, dropped = [], 0, 0
+    for line in src[a:b].split("\n"):
+        if line.strip() == "#if 0":
+            depth += 1; dropped += 1; continue
+        if line.strip() == "#endif" and depth > 0:
+            depth -= 1; continue
+        out.append(line)
+    if dropped != 2 or "ADFI_read_free_chunk(" not in src[a:b]:
+        return None
+    path = os.path.join(work, "adfi_search_variant.c")
+    open(path, "w").write(src[:a] + "\n".join(out) + src[b:])
+    try:
+        return vlib.build_harness("c02d_alloc_search", ["c02d_alloc.c", path], extra=["-DC02D_HAVE_HOOK"])
+    except vlib.Infra:
+        return None
+
+
+def search_leg(ck, ex, work, thorough):
+    """[malloc_search] = the text inside "#if 0" of ADFI_file_malloc, replayed against a harness in which that text is
+    compiled.  The code is not part of the library: whatever this leg shows is recorded, never a verdict."""
+    exe = build_search_variant(work)
+    if not exe:
+        ex["disabled_search_variant"] = "not run: the #if 0 text of ADFI_file_malloc was not found as expected, or the variant does not compile"
+        return
+    st = {"histories": 0, "mallocs": 0, "mallocs_served_from_a_free_list": 0, "model_vs_variant_divergences": 0, "oracle_failures": 0,
+          "hypothesis_breaches": 0, "first": None,
+          "note": "the variant is NOT the library: recorded only.  0 divergences = AdfAlloc.malloc_search transcribes the disabled text; "
+                  "0 oracle failures = on these histories the disabled search would not have made structures overlap"}
+    hs = [h for n, h, e in corpus() if n in ("no-reuse", "table-growth", "rest-of-block-1025")]
+    hs += [gen_directed(ck.rng, 130) for _ in range(24 if thorough else 4)]
+    for i, h in enumerate(hs):
+        r = run_hist(exe, True, h, work, "s%d" % i, engine_args=["search"])
+        st["histories"] += 1; st["mallocs"] += r["summary"].get("mallocs", 0)
+        st["mallocs_served_from_a_free_list"] += r["summary"].get("malloc_reused_free_chunk", 0)
+        st["model_vs_variant_divergences"] += bool(r["diffs"]); st["oracle_failures"] += bool(r["oracle"]); st["hypothesis_breaches"] += bool(r["viols"])
+        if (r["diffs"] or r["oracle"] or r["viols"]) and not st["first"]:
+            st["first"] = {"diffs": r["diffs"][:2], "oracle": r["oracle"][:2], "viols": r["viols"][:1], "script": [nodedb.short(x, 80) for x in h[:40]]}
+    ex["disabled_search_variant"] = st
+
+
 # ----------------------------------------------------------------------------- the check
 def run_extra(ck, pid="C02d"):
     thorough = ck.tier == "thorough"
@@ -568,18 +638,25 @@ def run_extra(ck, pid="C02d"):
         "C02d: files written by this library version (binary 8+4 byte disk pointers); block buffers / priority stack abstracted away (C02b layer)"]
 
     findings, diffs, leaks = {}, [], []
+    shrink = {"histories": 0, "short_frees": 0, "witness": None,
+              "what": "OBSERVATION outside the property (file space, not answers): ADF_Write_All_Data rewrites the tags of a node's single data "
+                      "chunk for the new, smaller byte count; ADFI_file_free later frees the chunk by its tags, so the bytes behind them are "
+                      "neither reachable, free nor 'z' (ghost class `lost` of the model; C02_alloc_conservation_needs_exact_frees_refuted). "
+                      "Proposed one-word repair, not applied: notes/C02d-fixes/01-write-all-keeps-single-chunk-size.diff"}
     stats = {"histories": 0, "script_lines": 0, "trace_events": 0, "snapshots_walked": 0, "regions_walked": 0, "answers_checked": 0,
              "kinds": {"corpus": 0, "directed": 0, "nodedb": 0}}
     msum = {}
     from concurrent.futures import ThreadPoolExecutor
     pool = ThreadPoolExecutor(max_workers=4)
     jobs = []
-    for name, h in corpus():
+    expects = {}
+    for name, h, exp in corpus():
+        expects[name] = exp
         jobs.append(("corpus", name, h, pool.submit(run_hist, exe, hook, h, work, "c_" + name)))
-    for i in range(40 if thorough else 10):
-        h = gen_directed(ck.rng, (260 if i % 5 == 4 else 120) if thorough else 90)
+    for i in range(120 if thorough else 14):
+        h = gen_directed(ck.rng, (300 if i % 5 == 4 else 130) if thorough else 90)
         jobs.append(("directed", "d%d" % i, h, pool.submit(run_hist, exe, hook, h, work, "d%d" % i)))
-    for i in range(24 if thorough else 5):
+    for i in range(60 if thorough else 6):
         files = [(1,), (1, 2), (1,), (1, 2, 3), (1,)][i % 5]
         h = with_snaps(nodedb.gen_history(ck.rng, 110 if thorough else 70, files=files, big=(i % 5 == 2), wide=(i % 5 == 4)))
         jobs.append(("nodedb", "n%d" % i, h, pool.submit(run_hist, exe, hook, h, work, "n%d" % i)))
@@ -603,9 +680,24 @@ def run_extra(ck, pid="C02d"):
             findings.setdefault(key, (h, what, kind, name))
         for v, where in r["viols"]:
             findings.setdefault(viol_key(v), (h, v[:300] + " @ " + where[:100], kind, name))
+        if hook and kind == "corpus":
+            seen = "\n".join(r["trace"]) + "\n" + "\n".join(r["notes"]) + "\n" + "\n".join(r["snaplines"])
+            miss = [e for e in expects.get(name, []) if e not in seen]
+            if name not in OPTIONAL:
+                r["diffs"] += ["witness history %s: %r not reproduced by the library" % (name, e) for e in miss]
+            ex.setdefault("witnesses_on_library", {})[name] = "reproduced" if not (miss or r["diffs"]) else (
+                "not reproduced: the library no longer hands back shrunk chunks (notes/C02d-fixes/01 applied?)" if name in OPTIONAL and not r["diffs"]
+                else (r["diffs"] or miss)[:2])
+        if r["notes"]:                      # a side observation (file space, not answers): recorded, never a verdict
+            shrink["histories"] += 1; shrink["short_frees"] += len(r["notes"])
+            if name == "shrunk-chunk":
+                shrink["witness"] = {"corpus_history": name, "script": [nodedb.short(x, 80) for x in h], "trace": r["notes"][0],
+                                     "model_lost_ranges": [m.split(" X ")[1] for m in r["snaplines"] if " X " in m][-1:]}
         if r["diffs"]:
             diffs.append((kind, name, h, r["diffs"][:3]))
     pool.shutdown()
+    shrink["bytes_lost"] = msum.get("bytes_lost_behind_short_frees", 0)
+    ex["side_observation_short_frees"] = shrink
     ex["input_distribution"] = stats
     ex["model_counters"] = msum if hook else "(no hook: no trace)"
     ex["allocations_live_in_the_model_but_unreachable_in_the_file"] = {
@@ -613,12 +705,12 @@ def run_extra(ck, pid="C02d"):
         "note": "space that is neither reachable, nor on a free list, nor abandoned: not a violation of C02 (no answer depends on it); recorded only"}
 
     # ---- verdicts: a failing oracle is shrunk and reported; a divergence without one is no-failing-input-found
-    for key, (h, what, kind, name) in findings.items():
+    for nf, (key, (h, what, kind, name)) in enumerate(findings.items()):
         def still(lines, key=key):
             if not lines or not lines[0].startswith("file "):
                 return False
             return key in failing_keys(run_hist(exe, hook, lines, work, "shrink"))
-        small = vlib.ddmin(h, still, max_tests=120 if thorough else 60) if (still(h) and not ck.known_match(key)) else h
+        small = vlib.ddmin(h, still, max_tests=120 if thorough else 40) if (nf < 2 and kind != "corpus" and not ck.known_match(key) and still(h)) else h
         ck.finding(key, dict(pack(small), what=what, history=name, hook=hook,
                              oracle="file walk (disjointness, tags, fills) / Python dictionary of written data / liveness of every freed range"))
     real = [k for k in findings if not ck.known_match(k)]
@@ -635,12 +727,20 @@ def run_extra(ck, pid="C02d"):
             key = sorted(failing_keys(rr))[0]
             ck.finding(key, dict(pack(hh), what=[w for k, w in rr["oracle"]][:3], history="widened search", hook=hook))
         else:
+            def still_div(lines):
+                return bool(lines) and lines[0].startswith("file ") and bool(run_hist(exe, hook, lines, work, "shrinkd")["diffs"])
+            if kind != "corpus":
+                h = vlib.ddmin(h, still_div, max_tests=60 if thorough else 30)
+                detail = run_hist(exe, hook, h, work, "shrinkd")["diffs"][:3] or detail
             ck.violation({"broken_correspondence": "extracted AdfAlloc vs ADFI_file_malloc / ADFI_file_free (%s history %s)" % (kind, name),
                           "first_divergences": detail, "script": [nodedb.short(x, 300) for x in h],
+                          "script_full": h if sum(map(len, h)) < 400000 else None,
                           "note": "the model no longer describes the allocator; no history explored shows overlapping structures or a wrong answer"},
                          nofail=True)
     if broken and not ck.violations:
         ck.violation({"broken_obligations": broken, "note": "a C02d theorem no longer checks; no history explored diverges"}, nofail=True)
+    if hook:
+        search_leg(ck, ex, work, thorough)
     ex["model_vs_implementation_divergences"] = len(diffs)
     ex["first_divergences"] = [(k, n, d) for k, n, h, d in diffs[:3]]
     ex["finding_keys_seen"] = sorted(findings)
@@ -663,7 +763,7 @@ def replay(ck, path):
         print("replay names a broken obligation / correspondence, no input to run"); return 1
     rr = run_hist(exe, hook, script, ck.work, "replay")
     keys = failing_keys(rr)
-    print("replay: outcome %s; oracle: %s; hypotheses breached: %s; model/implementation divergences: %d %s" % (
+    print("replay: outcome %s; oracle (file walk, read back): %s; hypotheses breached: %s; model/implementation divergences: %d %s" % (
         rr["outcome"], json.dumps([w for k, w in rr["oracle"]][:3]) if rr["oracle"] else "holds", sorted({viol_key(v) for v, _ in rr["viols"]}),
         len(rr["diffs"]), rr["diffs"][:2]))
     return 1 if (keys or rr["outcome"] != "ok") else 0
